@@ -67,6 +67,10 @@ def gen_entity(rng, eid, tag):
         d["entity_categories"] = rng.sample(CATS, rng.randint(1, 2))
     if rng.random() < 0.25:
         d["valueless_entity_attribute"] = "urn:example:verif:flag"
+    if rng.random() < 0.4:
+        d["split_category_attributes"] = True
+    if rng.random() < 0.25:
+        d["unknown_extension"] = True
     if rng.random() < 0.3:
         # the categories the entity honours as a releasing party - another attribute, another claim
         d["entity_category_support"] = rng.sample(CATS, rng.randint(1, 2))
